@@ -162,7 +162,7 @@ func drawC18(t *rapid.T) Case {
 		c.T = tv.TypeSpec{K: "iface"}
 		ty, _ = tv.Build(c.T)
 	}
-	if c.Switch == "UseUnicodeErrors" && rapid.Bool().Draw(t, "ifaceroot") {
+	if (c.Switch == "UseUnicodeErrors" || c.Switch == "CopyString" || c.Switch == "UseNumber" || c.Switch == "UseInt64" || c.Switch == "entry-dec") && rapid.Bool().Draw(t, "ifaceroot") {
 		c.T = tv.TypeSpec{K: "iface"}
 		ty, _ = tv.Build(c.T)
 	}
@@ -507,8 +507,8 @@ func (c *C18Case) Run() (res stat.Result) {
 	res.Programs = firstUse(ty)
 	od, nd := reflect.New(ty), reflect.New(ty)
 	res.Sub += 2
-	oe := off.Unmarshal(c.Doc, od.Interface())
-	ne := on.Unmarshal(c.Doc, nd.Interface())
+	oe := unmarshalThenScribble(off, c.Doc, od.Interface())
+	ne := unmarshalThenScribble(on, c.Doc, nd.Interface())
 	flaws := ref.DocStringFlaws(c.Doc)
 	identical := func() stat.Result {
 		if (oe == nil) != (ne == nil) {
@@ -904,7 +904,7 @@ func (c *C18Case) runEntryDec(cfg sonic.Config, res stat.Result) stat.Result {
 	}
 	api := cfg.Froze()
 	want := reflect.New(ty)
-	werr := api.Unmarshal(c.Doc, want.Interface())
+	werr := unmarshalThenScribble(api, c.Doc, want.Interface())
 	res.NonTrivial = werr == nil && len(c.Doc) > 4
 	cmp := func(name string, got reflect.Value, err error) bool {
 		res.Sub++
@@ -1012,4 +1012,15 @@ func hasNilByteSlice(v reflect.Value) bool {
 		}
 	}, 0)
 	return found
+}
+
+// unmarshalThenScribble decodes from a private copy of doc and then overwrites that copy: Unmarshal([]byte)
+// returns data the caller owns, so nothing decoded may change when the caller reuses its buffer.
+func unmarshalThenScribble(api sonic.API, doc []byte, dst interface{}) error {
+	buf := append(make([]byte, 0, len(doc)+8), doc...)
+	err := api.Unmarshal(buf, dst)
+	for i := range buf {
+		buf[i] = '#'
+	}
+	return err
 }
